@@ -80,7 +80,7 @@ def chunk_block_freshness(repo: Repo, rep, P: str, rule: str):
     if not fields:
         rep.inconclusive(f"{P}.{rule}", con, "", "no accumulator for CHNM/CHDT/CHFF/CHFR found", f"{rel}:{mr.node.lineno}")
         return
-    chnm = mr.methods["process_CHNM"]
+    chnm = repo.own_method(mr, "process_CHNM")          # normal form: helpers read through, a fresh local published to self.X read as self.X
     scope = [chnm]
     for c in ast.walk(chnm):
         if isinstance(c, ast.Call) and isinstance(c.func, ast.Attribute) and norm(c.func.value) == "self" and c.func.attr in mr.methods:
